@@ -218,23 +218,6 @@ Qed.
 
 (* ---------- the whole batch ---------------------------------------------------------------------------- *)
 
-Definition labels (fr : list (list Z)) : list nat := map snd (map argmax_first fr).
-Definition maxima (fr : list (list Z)) : list Z := map fst (map argmax_first fr).
-
-Definition eff_lens (T : nat) (in_lens : option (list Z)) (N : nat) : list nat :=
-  match in_lens with
-  | None => repeat T N
-  | Some ls => map (fun z => Nat.min T (Z.to_nat z)) ls
-  end.
-
-Definition norm_blank (V blank : Z) : nat := Z.to_nat ((blank + V) mod V).
-
-Definition row_path (b T l : nat) (fr : list (list Z)) : list nat := collapse b (firstn l (labels fr)).
-
-Definition row_score (is_probs : bool) (one : Z) (T l : nat) (fr : list (list Z)) : Z :=
-  if is_probs then (fold_right Z.mul 1 (firstn l (maxima fr)) * one ^ Z.of_nat (T - l))%Z
-  else fold_right Z.add 0%Z (firstn l (maxima fr)).
-
 Lemma in_mask_eff T in_lens (lp : list (list (list Z))) :
   (forall ls, in_lens = Some ls -> length ls = length lp) ->
   match in_lens with
